@@ -41,6 +41,19 @@ theorem command_shape :
       "if cmd == nil", "if bytes.HasPrefix(resp, []byte(\"E_\"))"]) ∧
     peerClose = ["assign:lp.state = stateDisconnected", "call:Close"] := by decide
 
+/-- The read deadline (audit C9). Exactly two shapes are accepted until
+fixes/F39_lookup_peer_deadline_per_round_trip.patch is committed: the current one — `lookupPeer.Read` sets a fresh
+`time.Now()`-based deadline for EVERY Read, `Command` sets none: a drip-fed reply is never timed out (finding
+`slow-reply-holds-lookup-loop`, replayed) — and the one with F39: `Read` uses `lp.deadline`, which `Command` sets once
+before the magic write and once before each round trip (write + bounded read): a round trip takes at most 1 s. -/
+theorem read_deadline_shape :
+    (peerRead = ["call:SetReadDeadline", "call:Now", "call:Read"] ∧
+     commandDeadline = ["call:Write", "call:WriteTo", "call:readResponseBounded"])
+    ∨
+    (peerRead = ["call:SetReadDeadline", "call:Read"] ∧
+     commandDeadline = ["assign:lp.deadline = time.Now().Add(time.Second)", "call:Write",
+       "assign:lp.deadline = time.Now().Add(time.Second)", "call:WriteTo", "call:readResponseBounded"]) := by decide
+
 /-- `connectCallback` (tree with fixes/F14_connect_callback_skips_exiting.patch): IDENTIFY round trip, then under the
 read locks every topic's `Exiting()` is tested before its channel map is read and every channel's `Exiting()` before its
 REGISTER is built; `REGISTER topic` alone is sent only when no channel was registered (`callbackCmds objs dead`);
